@@ -704,7 +704,7 @@ fn scenarios(env: &Env, quick: bool) -> Vec<Scenario> {
             add("status-snapshot", &["status"]);
             add("new", &["new"]);
             add("commit", &["commit", "-m", "committed"]);
-            add("squash", &["squash"]);
+            add("squash", &["squash", "-u"]);
             add("abandon", &["abandon"]);
             add("rebase", &["rebase", "-r", "@", "-d", "other"]);
             add("bookmark-create", &["bookmark", "create", "bm"]);
